@@ -217,15 +217,6 @@ impl<L: LSPLang> Backend<L> {
     Some(diagnostics)
   }
 
-  async fn publish_diagnostics(&self, uri: Url, versioned: &VersionedAst<StrDoc<L>>) -> Option<()> {
-    let diagnostics = self.get_diagnostics(&uri, versioned).unwrap_or_default();
-    self
-      .client
-      .publish_diagnostics(uri, diagnostics, Some(versioned.version))
-      .await;
-    Some(())
-  }
-
   async fn get_path_of_first_workspace(&self) -> Option<std::path::PathBuf> {
     let folders = self.client.workspace_folders().await.ok()??;
     let folder = folders.first()?;
@@ -245,31 +236,33 @@ impl<L: LSPLang> Backend<L> {
 
   async fn on_open(&self, params: DidOpenTextDocumentParams) -> Option<()> {
     let text_doc = params.text_document;
+    let uri = text_doc.uri.as_str().to_owned();
+    let lang = Self::infer_lang_from_uri(&text_doc.uri)?;
+    let root = AstGrep::new(&text_doc.text, lang);
+    let versioned = VersionedAst {
+      version: text_doc.version,
+      root,
+    };
+    // register the document before the first await: a didChange that is handled
+    // while we wait for the client's answer must find it, or the change is lost
+    self.map.insert(uri.to_owned(), versioned); // don't lock dashmap
     if self
       .should_skip_file_outside_workspace(&text_doc)
       .await
       .is_some()
     {
+      self.map.remove(&uri);
       return None;
     }
-    let uri = text_doc.uri.as_str().to_owned();
-    let text = text_doc.text;
     self
       .client
       .log_message(MessageType::LOG, "Parsing doc.")
       .await;
-    let lang = Self::infer_lang_from_uri(&text_doc.uri)?;
-    let root = AstGrep::new(text, lang);
-    let versioned = VersionedAst {
-      version: text_doc.version,
-      root,
-    };
     self
       .client
       .log_message(MessageType::LOG, "Publishing init diagnostics.")
       .await;
-    self.publish_diagnostics(text_doc.uri, &versioned).await;
-    self.map.insert(uri.to_owned(), versioned); // don't lock dashmap
+    self.publish_current_diagnostics(text_doc.uri).await;
     Some(())
   }
 
